@@ -58,6 +58,24 @@ Section C09.
       exact (proj2 (ok_or_names_ok _ _ _ (chomsky_total teqb neqb t2n fresh teqb_spec neqb_spec fresh_spec G (valid_wf G HG)) H)).
   Qed.
 
+  (** the sub-steps of ChomskyNormalForm: after START the start symbol occurs in no body, after
+      TERM every terminal is solitary, after BIN (on a TERM result) every body is A -> a or has at
+      most two symbols, all non-terminals *)
+  Theorem C09_cnf_start_post : forall G G' : gram, valid G -> cnf_start teqb neqb fresh G = Ok G' ->
+    start_not_on_right teqb neqb G' = true.
+  Proof. intros G G' HG H. exact (start_post teqb neqb fresh teqb_spec neqb_spec fresh_spec G G' (valid_wf G HG) H). Qed.
+
+  Theorem C09_cnf_term_post : forall G G' : gram, cnf_term teqb neqb t2n fresh G = Ok G' ->
+    forall q, In q (prods G') -> (exists a, body q = [Tm a]) \/ forall t, ~ In (Tm t) (body q).
+  Proof. intros G G' H. exact (term_solitary teqb neqb t2n fresh teqb_spec neqb_spec G G' H). Qed.
+
+  Theorem C09_cnf_bin_post : forall G G' : gram,
+    (forall p, In p (prods G) -> (exists a, body p = [Tm a]) \/ forall t, ~ In (Tm t) (body p)) ->
+    cnf_bin teqb neqb fresh G = Ok G' ->
+    forall q, In q (prods G') ->
+      (exists a, body q = [Tm a]) \/ ((forall t, ~ In (Tm t) (body q)) /\ length (body q) <= 2).
+  Proof. intros G G' Hs H. exact (bin_shape teqb neqb fresh teqb_spec neqb_spec G G' H Hs). Qed.
+
   (** EliminateEmptyProductions: no ε-production except for a fresh start symbol *)
   Theorem C09_del_post : forall G G' : gram, valid G -> del teqb neqb fresh G = Ok G' ->
     no_empty_except_fresh_start teqb neqb G' = true /\ verify_symbols teqb neqb G' = true.
@@ -244,6 +262,9 @@ Print Assumptions C09_verify_correct.
 Print Assumptions C09_is_cnf_correct.
 Print Assumptions C09_no_unit_correct.
 Print Assumptions C09_chomsky_post.
+Print Assumptions C09_cnf_start_post.
+Print Assumptions C09_cnf_term_post.
+Print Assumptions C09_cnf_bin_post.
 Print Assumptions C09_del_post.
 Print Assumptions C09_unit_post.
 Print Assumptions C09_unreachable_post.
